@@ -129,7 +129,7 @@ type slot struct {
 	node *V
 	file string
 	refc bool // response whose body schema is a reference (headers on two such responses trip a known naming defect)
-	ord  int // creation number: a slot may only refer to components with a smaller id (keeps the graph acyclic)
+	ord  int  // creation number: a slot may only refer to components with a smaller id (keeps the graph acyclic)
 }
 
 func (b *gb) slot(n *V, file string) slot { return slot{node: n, file: file, ord: b.id()} }
